@@ -13,7 +13,7 @@ import json
 from lib import vlib
 from lib.vlib import cq_list, cq_bool
 
-SETUP_BUILDS = [{"name": "c05"}]
+SETUP_BUILDS = [{"name": "c05"}, {"name": "c05", "race": True}]
 COQ_TARGETS = ["Gguf/Properties_C05.v", "Gguf/Corr.v"]
 HEADER = ("From Coq Require Import List NArith ZArith Bool Uint63.\nFrom V Require Import Common.Bytes Gguf.Model Gguf.SeekerModel Gguf.Corr.\n"
           "Import ListNotations.\nOpen Scope N_scope.\n")
@@ -216,6 +216,27 @@ def gen_cases(ctx):
             kv += [x for x in gen_kv(rng, None, big) if x["k"] not in {y["k"] for y in kv}]
         ma = rng.choice([-1, -1, -1, 0, 0, 1, 2, 3, 1024, 5000]) if not big else rng.choice([-1, 0, 1024, 1100])
         cases.append({"op": "rt", "kv": kv, "tensors": ts, "max_array": ma, "file": rng.random() < 0.08, "klass": klass})
+    # concurrent and repeated use of WriteGGUF in ONE process: state shared between calls (pools, caches, scratch buffers) only shows when
+    # calls overlap or follow each other.  Every file is judged against ITS OWN input.
+    def writer(nkv_lo, nkv_hi):
+        kv = []
+        for _ in range(3):
+            kv += [x for x in gen_kv(rng, None, False) if x["k"] not in {y["k"] for y in kv}]
+        kv = kv[:rng.randint(nkv_lo, nkv_hi)]
+        al = rng.choice([None, 8, 32])
+        if al is not None:
+            kv.append({"k": K_ALIGN.hex(), "t": "u32", "v": str(al)})
+        return {"op": "rt", "kv": kv, "tensors": gen_tensors(rng, rng.choice([0, 1, 3, 4]), True), "max_array": -1}
+    nconc = 14 if ctx.quick() else 300
+    for i in range(nconc):
+        nw = rng.choice([2, 2, 3, 4])
+        ws = [writer(1, 8) for _ in range(nw)]
+        mode = ["lockstep", "lockstep", "lockstep", "free", "seq"][i % 5]
+        procs = rng.choice([1, 1, 4]) if mode != "free" else rng.choice([1, 4, 8])
+        if mode == "seq":   # growing then shrinking key/value sections
+            ws = [writer(6, 10), writer(0, 1), writer(3, 5), writer(8, 12), writer(1, 2)]
+        sched = [rng.randrange(nw) for _ in range(rng.choice([1, 2, 3, 7]))] if rng.random() < 0.6 else list(range(nw))
+        cases.append({"op": "conc", "writers": ws, "mode": mode, "procs": procs, "sched": sched, "klass": "concurrent-" + mode})
     # Tensor.block (fmt.Sscanf "blk.%d."): exhaustive short names + boundary cases
     a1 = bytes([0x30, 0x31, 0x39, 0x2b, 0x2d, 0x5f, 0x2e, 0x20, 0x0a, 0x0d, 0x78, 0xc2, 0xa0, 0x09])
     cases.append({"op": "block_all", "prefix": b"blk.".hex(), "alpha": (a1[:11] if ctx.quick() else a1).hex(), "maxlen": 4, "klass": "block-exhaustive"})
@@ -521,7 +542,22 @@ def model_term(c, o):
 
 
 def strip(c):
-    return {k: v for k, v in c.items() if k != "klass"}
+    return {k: v for k, v in c.items() if k not in ("klass", "_parent")}
+
+
+def flatten(cases, obs):
+    """a concurrent/sequential case is judged writer by writer: each file against its own input"""
+    out = []
+    for c, o in zip(cases, obs):
+        if c["op"] != "conc":
+            out.append((c, o))
+            continue
+        ws = o.get("writers") if isinstance(o, dict) else None
+        if not ws or len(ws) != len(c["writers"]):
+            ws = [{"panic": o.get("panic") or o.get("harness_error") or "no answer"}] * len(c["writers"])
+        for sub, so in zip(c["writers"], ws):
+            out.append(({**sub, "op": "rt", "klass": c["klass"], "_parent": c}, so))
+    return out
 
 
 def run_cases(ctx, binp, cases):
@@ -558,7 +594,10 @@ def run(ctx, only=None):
         return
     items = []
     reported = set()
-    for c, o in zip(cases, obs):
+    flat = flatten(cases, obs)
+    cases = [c for c, _ in flat]
+    obs = [o for _, o in flat]
+    for c, o in flat:
         if c["op"] == "rt":
             ts = c["tensors"]
             al = align_of(c)
@@ -567,6 +606,17 @@ def run(ctx, only=None):
                                                              "impl": {"len": len(o.get("bytes", "")) // 2, "order": o.get("order"), "end": (o.get("dec") or {}).get("end")}})
             ctx.count("tensors=%s" % (len(ts) if len(ts) < 4 else "4-9" if len(ts) < 10 else "10+"))
             for klass, text in prop_failures(c, o):
+                par = c.get("_parent")
+                if par is not None:
+                    key = (klass, par["mode"])
+                    if key in reported:
+                        continue
+                    reported.add(key)
+                    ctx.violation({"class": klass, "concurrent": par["mode"]},
+                                  "%s WriteGGUF calls in one process (%s, GOMAXPROCS %s): a file no longer decodes to ITS OWN input: %s" % (len(par["writers"]), par["mode"], par["procs"], text),
+                                  {"case": strip(par), "failing_writer": strip(c), "impl": o,
+                                   "how": "python3 check.py C05 --replay <this file> (the writers run in goroutines whose WriteSeeker stops at every Write until scheduled)"})
+                    continue
                 if klass in reported:
                     continue
                 reported.add(klass)
@@ -580,6 +630,8 @@ def run(ctx, only=None):
                 ctx.cases += int(o["n"])
                 ctx.count("block-exhaustive-names", int(o["n"]))
         items.append(render(c, o))
+    if not ctx.quick() and only is None:
+        race_stage(ctx, [c["_parent"] for c in cases if c.get("_parent") is not None and c["_parent"]["mode"] != "seq"])
     bad, log = ctx.coq_eval(HEADER, items, per_file=40 if ctx.quick() else 100)
     if bad is None:
         ctx.obligation("correspondence: model evaluated on all cases", False, log)
@@ -590,6 +642,36 @@ def run(ctx, only=None):
     for i in bad[:20]:
         ctx.mismatch("Gguf/Corr.%s" % items[i].split()[0], strip(cases[i]), {k: v for k, v in obs[i].items()},
                      ctx.coq_print(HEADER, model_term(cases[i], obs[i])) if len(ctx.mismatches) < 2 else None)
+
+
+def race_stage(ctx, parents):
+    """thorough tier: the concurrent cases again, free-running, on a harness built with -race"""
+    seen, todo = set(), []
+    for p in parents:
+        if id(p) not in seen:
+            seen.add(id(p))
+            todo.append({**strip(p), "mode": "free", "procs": 1})
+            todo.append({**strip(p), "mode": "free", "procs": 4})
+    binr = ctx.go_build("c05", race=True)
+    if not binr or not todo:
+        return
+    env = dict(vlib.goenv(), GORACE="halt_on_error=0 exitcode=0")
+    import subprocess
+    try:
+        p = subprocess.run([binr], input="".join(json.dumps(c) + "\n" for c in todo), stdout=subprocess.PIPE, stderr=subprocess.PIPE, text=True, timeout=1800, env=env, cwd=ctx.tmp)
+        obs = [l for l in p.stdout.split("\n") if l.startswith("{")]
+        err = p.stderr
+    except subprocess.TimeoutExpired:
+        obs, err = None, "timeout"
+    races = err.count("WARNING: DATA RACE")
+    at = err.find("WARNING: DATA RACE")
+    err = err[max(at, 0):][:3000] if races else err[-1500:]
+    ctx.extra["race_stage"] = {"cases": len(todo), "data_races": races}
+    ok = obs is not None and len(obs) == len(todo) and races == 0
+    ctx.obligation("race detector: %d concurrent WriteGGUF cases without a data race" % len(todo), ok, (err or "")[-1500:])
+    if not ok:
+        ctx.violation({"class": "data-race", "concurrent": "free"}, "the race detector reports a data race between overlapping WriteGGUF calls (or the -race harness died): %s" % (err or "")[-600:],
+                      {"case": todo[0], "stderr": (err or "")[-3000:]})
 
 
 def replay(ctx, path):
